@@ -329,6 +329,19 @@ func C13(r *eng.Run) {
 	for _, L := range []int{100, 1000, 32768, 70000} {
 		jobs = append(jobs, job{"G", L}, job{"N", L})
 	}
+	// ties and every sticky-tail pattern after 34/35-digit prefixes (the digits the rounding step drops), as in C05
+	for _, K := range []string{gen1[:34], "2000000000000000000000000000000000", "12980742146337069071326240823050238", "9999999999999999999999999999999998"} {
+		for _, tl := range stickyTails(5) {
+			ts := tl.String()
+			for pad := len(ts); pad <= 5; pad++ {
+				if pad > len(ts) && pad != 5 {
+					continue
+				}
+				tt := strings.Repeat("0", pad-len(ts)) + ts
+				jobs = append(jobs, job{"T:" + K + ":" + tt, len(K) + len(tt)})
+			}
+		}
+	}
 	r.Par(len(jobs), func(w *eng.W, k int) {
 		j := jobs[k]
 		dots := []int{-1, 1, j.L / 2, j.L - 1}
